@@ -458,7 +458,11 @@ class XMLReader(object):
                     # Special handling of values;
                     curr_text = node.text.strip() if node.text else None
                     if tag == "values" and curr_text:
-                        content = from_csv(node.text)
+                        try:
+                            content = from_csv(node.text)
+                        except csv.Error as exc:
+                            self.error("Could not parse the content of <%s>: %s" % (node.tag, exc), node)
+                            content = None
                         arguments[tag] = content
                     # Special handling of cardinality
                     elif tag.endswith("_cardinality") and curr_text:
